@@ -93,41 +93,139 @@ def _oracle_query(d: DFA, b: DFA, which: str):
 
 
 def run_sequence(ctx: Ctx, d: DFA, b: DFA, steps: List[str], origin: str,
-                 on_dfa: Callable[[str, list, Any, DFA, dict, bool], bool]) -> None:
+                 on_dfa: Callable[[str, list, Any, DFA, dict, bool], bool],
+                 ref_d: Optional[DFA] = None, ref_b: Optional[DFA] = None, base_extra: Optional[dict] = None,
+                 label: str = "sequence on one object", option_during_calls: Optional[bool] = None,
+                 pre: Optional[List[str]] = None) -> None:
     """Execute `steps` in order on the one instance `d` (kept alive by this frame, together with every
     result), evaluating each result.  `on_dfa(what, sources, spec, result, replay, minified)` is the calling
-    module's property oracle for DFA-valued results."""
+    module's property oracle for DFA-valued results.
+
+    `ref_d` / `ref_b`: FROZEN TWINS — the operands' definitions AS BUILT, when `d` / `b` are live objects that
+    the calls may disturb (built under `allow_mutable_automata=True` from plain containers): every judgement
+    (language, minimality, names, query answers) is made against the twins, the calls are made on `d` / `b`.
+    `pre`: names of PRE_CALLS executed (unjudged) on `d` first.  `option_during_calls`: value the global
+    `allow_mutable_automata` has while the steps run (None: leave it alone); the judgements are always made
+    with the option off."""
+    import automata.base.config as global_config
     ctx.stat(origin)
     ctx.stat(f"sequence_len_{len(steps)}")
     keep = []  # results stay referenced: nothing is garbage-collected between the calls
-    base = dict(op="sequence", A=repr(d), B=repr(b), steps=list(steps))
+    jd = d if ref_d is None else ref_d   # what the oracles see
+    jb = b if ref_b is None else ref_b
+    base = dict(op="sequence", A=repr(jd), B=repr(jb), steps=list(steps))
+    if base_extra:
+        base.update(base_extra)
+    if pre:
+        base["pre"] = list(pre)
     d_before = repr(d)
+
+    def with_option(f):
+        if option_during_calls is None:
+            return call(f)
+        saved = global_config.allow_mutable_automata
+        global_config.allow_mutable_automata = option_during_calls
+        try:
+            return call(f)
+        finally:
+            global_config.allow_mutable_automata = saved
+    for name in pre or []:
+        keep.append(with_option(lambda: PRE_CALLS[name](d, b)))
+        ctx.stat("seq_pre_call")
     all_ok = True
     for i, name in enumerate(steps):
         f, kind, spec, minified, arity = STEPS[name]
-        prefix = " ; ".join(steps[: i + 1])
+        prefix = " ; ".join(list(pre or []) + steps[: i + 1])
         replay = dict(base, failing_step=i)
-        res = call(lambda: f(d, b))
+        res = with_option(lambda: f(d, b))
         keep.append(res)
         ctx.stat("seq_step_" + name.split("(")[0].strip())
         if kind == "dfa":
             if res[0] == "err":
-                ctx.prop_fail(f"sequence on one object [{prefix}]: step {name} raised {res[1]}", replay)
+                ctx.prop_fail(f"{label} [{prefix}]: step {name} raised {res[1]}", replay)
                 all_ok = False
                 continue
-            srcs = [d] if arity == 1 else [d, b]
-            if not on_dfa(f"sequence on one object [{prefix}]: result of {name}", srcs, spec, res[1], replay, minified):
+            srcs = [jd] if arity == 1 else [jd, jb]
+            if not on_dfa(f"{label} [{prefix}]: result of {name}", srcs, spec, res[1], replay, minified):
                 all_ok = False
         else:
-            want = _oracle_query(d, b, spec)
+            want = _oracle_query(jd, jb, spec)
             if res != want:
-                ctx.prop_fail(f"sequence on one object [{prefix}]: {name} answered {res} but the oracle says {want}",
+                ctx.prop_fail(f"{label} [{prefix}]: {name} answered {res} but the oracle says {want}",
                               replay)
                 all_ok = False
     if repr(d) != d_before:
-        ctx.prop_fail(f"sequence on one object [{' ; '.join(steps)}]: the operand's definition changed", base)
-        all_ok = False
-    ctx.case(("sequence", base["A"], base["B"], tuple(steps)) if all_ok and len(d.states) >= 2 else None)
+        if ref_d is None:
+            ctx.prop_fail(f"{label} [{' ; '.join(steps)}]: the operand's definition changed", base)
+            all_ok = False
+        else:
+            # under the mutable-automata option this is C18's clause; here only the RESULTS are judged
+            ctx.stat("mutable_option_operand_definition_changed")
+    ctx.case(("sequence", base["A"], base["B"], tuple(pre or ()), tuple(steps), option_during_calls)
+             if all_ok and len(jd.states) >= 2 else None)
+
+
+# calls that must not matter for what a later operation returns (unjudged; they fill per-object caches and,
+# under the mutable-automata option, get their hands on the caller's containers)
+PRE_CALLS: Dict[str, Callable[[DFA, DFA], Any]] = {
+    "d.isempty()": lambda d, b: d.isempty(),
+    "d.isfinite()": lambda d, b: d.isfinite(),
+    "d.accepts_input('')": lambda d, b: d.accepts_input(""),
+    "d.minimum_word_length()": lambda d, b: d.minimum_word_length(),
+    "d.maximum_word_length()": lambda d, b: d.maximum_word_length(),
+    "d.cardinality()": lambda d, b: d.cardinality(),
+    "d == d": lambda d, b: d == d,
+    "d == b": lambda d, b: d == b,
+    "d.isdisjoint(b)": lambda d, b: d.isdisjoint(b),
+    "d.copy()": lambda d, b: d.copy(),
+    "d.validate()": lambda d, b: d.validate(),
+    "next(iter(d))": lambda d, b: next(iter(d), None),
+    "d.count_words_of_length(2)": lambda d, b: d.count_words_of_length(2),
+    "d.random_word(3)": lambda d, b: d.random_word(3, seed=1),
+    "b.minify()": lambda d, b: b.minify(),
+}
+
+
+def build_under_option(ref: DFA, option: bool = True) -> DFA:
+    """The definition of the frozen DFA `ref` handed to the constructor again in PLAIN containers
+    (set / dict of dicts) while `allow_mutable_automata` is `option` — with the option on the library keeps
+    exactly these containers."""
+    import automata.base.config as global_config
+    saved = global_config.allow_mutable_automata
+    global_config.allow_mutable_automata = option
+    try:
+        return DFA(states=set(ref.states), input_symbols=set(ref.input_symbols),
+                   transitions={k: dict(row) for k, row in ref.transitions.items()},
+                   initial_state=ref.initial_state, final_states=set(ref.final_states),
+                   allow_partial=ref.allow_partial)
+    finally:
+        global_config.allow_mutable_automata = saved
+
+
+def run_mutable_sequence(ctx: Ctx, ref_d: DFA, ref_b: DFA, pre: List[str], steps: List[str],
+                         option_during_calls: bool, origin: str, on_dfa) -> None:
+    """`allow_mutable_automata=True` with plain containers: build live twins of the frozen `ref_d`, `ref_b`
+    under the option, run `pre` (unjudged) and `steps` on them, judge every result against the FROZEN
+    definitions.  A library function that uses a container it was handed as its own work set (BFS `seen`
+    set := final_states, in-place `&=` / `|=` / `.update` on states / rows) corrupts the live operand, and the
+    result — or the result of the next call — is wrong for the definition as built."""
+    d = build_under_option(ref_d)
+    b = build_under_option(ref_b)
+    run_sequence(ctx, d, b, steps, origin, on_dfa, ref_d=ref_d, ref_b=ref_b,
+                 base_extra=dict(mutable=True, option_during_calls=option_during_calls),
+                 label="allow_mutable_automata=True, operands built from plain set/dict containers"
+                       + ("" if option_during_calls else ", option switched off again before the calls"),
+                 option_during_calls=option_during_calls, pre=pre)
+
+
+def draw_mutable_history(rng) -> Tuple[List[str], List[str], bool]:
+    """(pre-calls, steps, option on during the calls?) — 0–2 unjudged calls, then 1–3 judged steps, one of
+    them often repeated (a second call on the same, possibly disturbed, object)."""
+    pre = [rng.choice(list(PRE_CALLS)) for _ in range(rng.choice([0, 0, 1, 2]))]
+    steps = [rng.choice(STEP_NAMES) for _ in range(rng.randint(1, 3))]
+    if rng.random() < 0.3:
+        steps.append(rng.choice(steps))
+    return pre, steps, rng.random() < 0.7
 
 
 def draw_steps(rng, only: Optional[List[str]] = None) -> List[str]:
